@@ -297,6 +297,7 @@ func jsonStr(s string) string {
 type DocGen struct {
 	R        *Rand
 	Plain    bool // no comments/flow/anchors/quoting variety
+	Full     bool // every schema key present, d and e non-empty, no extra keys
 	MaxNodes int
 }
 
@@ -360,7 +361,7 @@ func (g *DocGen) Doc(id string) *Value {
 		}
 	}
 	for _, k := range order {
-		if k != "id" && r.Chance(1, 4) {
+		if k != "id" && !g.Full && r.Chance(1, 4) {
 			continue
 		}
 		switch k {
@@ -372,13 +373,13 @@ func (g *DocGen) Doc(id string) *Value {
 			m.Set("b", vStr(Pick(r, strPool)))
 		case "c":
 			c := vMap()
-			if r.Chance(3, 4) {
+			if g.Full || r.Chance(3, 4) {
 				c.Set("x", vInt(r.Range(0, 9)))
 			}
-			if r.Chance(3, 4) {
+			if g.Full || r.Chance(3, 4) {
 				c.Set("y", vStr(Pick(r, wordPool)))
 			}
-			if r.Chance(1, 2) {
+			if g.Full || r.Chance(1, 2) {
 				c.Set("z", vBool(r.Chance(1, 2)))
 			}
 			if !g.Plain {
@@ -387,7 +388,11 @@ func (g *DocGen) Doc(id string) *Value {
 			m.Set("c", c)
 		case "d":
 			d := vSeq()
-			for i, n := 0, r.Range(0, 4); i < n; i++ {
+			lo := 0
+			if g.Full {
+				lo = 2
+			}
+			for i, n := 0, r.Range(lo, 4); i < n; i++ {
 				d.Kids = append(d.Kids, vInt(r.Range(0, 20)))
 			}
 			if !g.Plain {
@@ -396,7 +401,11 @@ func (g *DocGen) Doc(id string) *Value {
 			m.Set("d", d)
 		case "e":
 			e := vSeq()
-			for i, n := 0, r.Range(0, 3); i < n; i++ {
+			lo := 0
+			if g.Full {
+				lo = 2
+			}
+			for i, n := 0, r.Range(lo, 3); i < n; i++ {
 				it := vMap()
 				it.Set("k", vStr(Pick(r, wordPool)))
 				it.Set("v", vInt(r.Range(0, 9)))
@@ -409,7 +418,7 @@ func (g *DocGen) Doc(id string) *Value {
 			m.Set("g", vNull())
 		}
 	}
-	for i, n := 0, r.Range(0, 2); i < n; i++ {
+	for i, n := 0, r.Range(0, 2); i < n && !g.Full; i++ {
 		k := Pick(r, extraKeys)
 		if m.Get(k) == nil {
 			m.Set(k, g.random(2))
